@@ -255,6 +255,50 @@ theorem closed_of_topo {g : Graph κ ν} (hwf : WF g) {order : List κ} (h : IsT
         · exact hdone x h
   exact key order [] h.1 (fun x hx => by cases hx) hk
 
+theorem lookup_skeleton {g : Graph κ ν} {k : κ} {ds : List κ} (h : (skeleton g).lookup k = some ds) :
+    ∃ t, (k, t) ∈ g ∧ t.deps = ds := by
+  induction g with
+  | nil => simp [skeleton] at h
+  | cons p rest ih =>
+    obtain ⟨k', t'⟩ := p
+    simp only [skeleton, List.map_cons, List.lookup_cons] at h
+    by_cases e : k = k'
+    · subst e
+      simp at h
+      exact ⟨t', List.mem_cons_self, h⟩
+    · have : (k == k') = false := by simpa using e
+      rw [this] at h
+      obtain ⟨t, ht, hd⟩ := ih h
+      exact ⟨t, List.mem_cons_of_mem _ ht, hd⟩
+
+theorem topoFromB_sound {g : Graph κ ν} : ∀ (order done : List κ),
+    topoFromB (skeleton g) done order = true → TopoFrom g done order := by
+  intro order
+  induction order with
+  | nil => intro _ _; trivial
+  | cons k rest ih =>
+    intro done h
+    simp only [topoFromB, Bool.and_eq_true, Bool.not_eq_true', List.contains_eq_mem,
+      decide_eq_false_iff_not] at h
+    obtain ⟨⟨h1, h2⟩, h3⟩ := h
+    refine ⟨h1, ?_, ih _ h3⟩
+    cases hl : (skeleton g).lookup k with
+    | none => simp [hl] at h2
+    | some ds =>
+      simp only [hl, List.all_eq_true, decide_eq_true_eq] at h2
+      obtain ⟨t, ht, hd⟩ := lookup_skeleton hl
+      exact ⟨t, ht, fun d hdm => h2 d (hd ▸ hdm)⟩
+
+/-- the executable checker is sound: an order it accepts is a topological order -/
+theorem isTopoB_sound {g : Graph κ ν} {order : List κ} (h : isTopoB (skeleton g) order = true) :
+    IsTopo g order := by
+  simp only [isTopoB, Bool.and_eq_true, List.all_eq_true, List.contains_eq_mem,
+    decide_eq_true_eq] at h
+  refine ⟨topoFromB_sound order [] h.1, ?_⟩
+  intro k hk
+  obtain ⟨p, hp, rfl⟩ := List.mem_map.mp hk
+  exact h.2 (p.1, p.2.deps) (List.mem_map.mpr ⟨p, hp, rfl⟩)
+
 end eval
 
 /-! ## 2. `toolz.merge` of layers -/
